@@ -261,8 +261,9 @@ def run(ctx: Ctx) -> None:
         enc_dts.append(t)
         enc_dts_exp.append(int(H.hex_from_dts(t.strftime("%y-%m-%dT%H:%M:%S")), 16))
     for _ in range(n_s):
-        t = dt(rng.choice([1, 1999, 2024, 9999, rng.randrange(1, 10000)]), 1, 1) + td(seconds=rng.randrange(366 * 86400))
-        if t.year > 9999:
+        try:
+            t = dt(rng.choice([1, 1999, 2024, 9999, rng.randrange(1, 10000)]), 1, 1) + td(seconds=rng.randrange(366 * 86400))
+        except OverflowError:       # 31 Dec 9999 + a day of a leap year: no such datetime
             continue
         dst, incl = rng.random() < 0.5, rng.random() < 0.5
         enc_dtm.append((t, dst, incl))
